@@ -34,6 +34,7 @@ from sqvm.gen_patterns import programs as gen_pattern_programs
 from sqvm.gen_seq import programs as gen_seq_programs
 from sqvm.gen_partial import programs as gen_partial_programs
 from sqvm.gen_dead import programs as gen_dead_programs
+from sqvm.gen_spread import programs as gen_spread_programs
 
 PROP = "C01"
 MAX_SHAPES = 24
@@ -347,7 +348,7 @@ def main():
     for n, s in gs:
         jobs.append((n, s + ",\n&f", timeout_ms, rep.seed, 2, shape_budget_s, s + ",\n{LIT} f"))
     # functions over partial-typed parameters (closed-world inhabitants from the program's tuples)
-    for n, s in gen_partial_programs() + gen_dead_programs():
+    for n, s in gen_partial_programs() + gen_dead_programs() + gen_spread_programs():
         jobs.append((n, s + ",\n&f", timeout_ms, rep.seed, 2, shape_budget_s, s + ",\n{LIT} f"))
     with mp.Pool(16) as pool:
         results = pool.map(check_program, jobs, chunksize=4)
